@@ -1,6 +1,6 @@
 (* C17 — :host conversion partitions rules without loss. Pinned statements. *)
 From GE Require Import Model.Str Model.CssNum Model.CssTok Model.CssOut Model.CssUrlEnc Model.Css Model.CssSpec.
-From GE Require Import Proofs.CssRuleProofs.
+From GE Require Import Proofs.CssRuleProofs Proofs.CssHostSpec.
 Open Scope N_scope.
 
 (* conversion off: the host branch is never taken *)
@@ -33,10 +33,11 @@ Theorem C17_host_combined_dropped_with_warning : forall o pc ph x px pb body be 
 Proof. exact host_combined_dropped_with_warning. Qed.
 Print Assumptions C17_host_combined_dropped_with_warning.
 
-(* `: host` (whitespace after the colon) is not `:host`: ordinary qualified rule (fix bdd7adf, D26) *)
+(* `: host` (whitespace after the colon) is not `:host`: the rule is treated like every rule that does
+   not start with `:host` (fix bdd7adf, D26) *)
 Theorem C17_host_spaced_not_converted : forall o pc w pw r endp st,
   qrule o (Leaf TColon pc :: Leaf (TWs w) pw :: r) endp st =
-  qr_loop o (Leaf TColon pc :: Leaf (TWs w) pw :: r) false false st.
+  qr_main o (Leaf TColon pc :: Leaf (TWs w) pw :: r) endp st.
 Proof. exact host_spaced_not_converted. Qed.
 Print Assumptions C17_host_spaced_not_converted.
 
@@ -47,3 +48,29 @@ Theorem C17_host_comment_still_host : forall o pc c pcm ph pb body be cl rest en
   (rest, host_emit o st pb body).
 Proof. exact host_comment_still_host. Qed.
 Print Assumptions C17_host_comment_still_host.
+
+(* the classification of the code (two scans) is the specification's, for EVERY prelude without a
+   `{}` block, every block, every tail, option set and state: `:host` alone (any letter case,
+   comments anywhere, whitespace around) is converted; `:host` / `:host(` anywhere else among the
+   top-level tokens of the selector (`:host .a`, `.a, :host`, `a:host`; fixes a899a19 1041599) is dropped
+   with one warning and writes nothing; every other rule goes to the selector walker *)
+Theorem C17_host_classification : forall pb be body cl rest o pre endp st,
+  convert_host o = true -> no_curly pre = true ->
+  match host_kind_of pre with
+  | HostPure => qrule o (pre ++ Block TCurly pb body be cl :: rest) endp st = (rest, host_emit o st pb body)
+  | HostCombined => exists wp, qrule o (pre ++ Block TCurly pb body be cl :: rest) endp st = (rest, warn st W_HOST wp)
+  | HostNone => qrule o (pre ++ Block TCurly pb body be cl :: rest) endp st =
+                qr_loop o (skip_ws pre ++ Block TCurly pb body be cl :: rest) false false st
+  end.
+Proof. exact qrule_matches_spec. Qed.
+Print Assumptions C17_host_classification.
+
+Example C17_host_classes_inhabited :
+  let p := mkpos 0 0 in
+  host_kind_of [Leaf TColon p; Leaf (TIdent [72;79;83;84]) p; Leaf (TWs [32]) p] = HostPure /\
+  host_kind_of [Leaf (TDelim 46) p; Leaf (TIdent [97]) p; Leaf TComma p; Leaf (TWs [32]) p;
+                Leaf TColon p; Leaf (TIdent s_host) p] = HostCombined /\
+  host_kind_of [Leaf (TIdent [97]) p; Leaf TColon p; Block (TFunc s_host) p [] p true] = HostCombined /\
+  host_kind_of [Leaf TColon p; Leaf (TWs [32]) p; Leaf (TIdent s_host) p] = HostNone /\
+  host_kind_of [Leaf (TDelim 46) p; Leaf (TIdent s_host) p] = HostNone.
+Proof. exact host_classes_inhabited. Qed.
